@@ -83,7 +83,7 @@ def agent(b, tag, jc=None, callback=None):
     return ag
 
 
-def job_control(b, qlen, active, nbg=0, may_fail=True):
+def job_control(b, qlen, active, nbg=0, may_fail=True, racy_reads=False):
     thread_module_hook(b)
     jc = PyObj(b.cls('bardolph.lib.job_control', 'JobControl'), {})
     if qlen in ('any', 'any+'):       # a queue of arbitrary length: one abstract segment of queued agents
@@ -94,15 +94,15 @@ def job_control(b, qlen, active, nbg=0, may_fail=True):
             n = max(n, 1 if qlen == 'any+' else 0)
             q0 = PyList([agent(b, 'q%d' % i) for i in range(min(n, 5))])
             q0.is_deque = True
-            return _finish_jc(b, jc, q0, active, nbg, may_fail)
+            return _finish_jc(b, jc, q0, active, nbg, may_fail, racy_reads)
         q = PyList([Segment('Q', z3.IntVal(0), n.t, elem=lambda I_, base, ix: agent(b, 'queued[%s]' % ix), tag='queued agents')])
     else:
         q = PyList([agent(b, 'q%d' % i) for i in range(qlen)])
     q.is_deque = True
-    return _finish_jc(b, jc, q, active, nbg, may_fail)
+    return _finish_jc(b, jc, q, active, nbg, may_fail, racy_reads)
 
 
-def _finish_jc(b, jc, q, active, nbg, may_fail):
+def _finish_jc(b, jc, q, active, nbg, may_fail, racy_reads=False):
     act = agent(b, 'active') if active else None
     if act is not None:     # the active agent's thread was started; whether it is still alive is arbitrary
         act.attrs['_thread'] = Opaque('Thread', methods={'is_alive': lambda I_, o, a, k: I_.fresh('bool', 'alive')})
@@ -117,6 +117,20 @@ def _finish_jc(b, jc, q, active, nbg, may_fail):
             if isinstance(names[i], SymVal):
                 b.assume(names[i].t != names[j].t)
     jc.attrs.update(_background=bg, _active_agent=act, _queue=q, _lock=lock_stub(b, may_fail))
+    if racy_reads:
+        # rely: the slot is written by job threads (completion) under the lock.  What this thread reads WITHOUT holding the lock
+        # may be out of date by the time it holds it: such a read yields either the slot's value or the other possibility
+        # (free instead of taken / taken by a job that has finished meanwhile instead of free)
+        gone = agent(b, 'finished_meanwhile')
+        def read(I_, o, f):
+            cur = o.attrs[f]
+            if o.attrs['_lock'].attrs['depth'] > 0:
+                return cur
+            I_.ghost['unlocked_slot_reads'] = I_.ghost.get('unlocked_slot_reads', 0) + 1
+            if I_.branch(I_.fresh('bool', 'slot_changed_before_the_lock_was_taken').t):
+                return gone if cur is None else None
+            return cur
+        b.volatile(jc, '_active_agent', read)
     b.ghost('jc', jc)
     b.ghost('stop_requests', PyList())
     return jc, q, act
@@ -203,7 +217,8 @@ c.ensures('holds-the-slot-before-its-thread-starts', "all(ghost('registered_at_s
 for meth, front in (('add_job', False), ('insert_job', True)):
     c = contract(JC, 'JobControl.' + meth, serves=['C08'])
     def _setup(b, case):
-        jc, q, act = job_control(b, case['q'], case['active'])
+        # the slot is examined under the lock only: an earlier look at it may be out of date (racy_reads)
+        jc, q, act = job_control(b, case['q'], case['active'], racy_reads=True)
         job = Opaque('new_job', methods={'execute': lambda I_, o, a, k: None})
         return {'self': jc, 'job': job, 'name': b.sym('str', 'new_name')}
     c.setup(_setup)
